@@ -536,6 +536,10 @@ func init() {
 		return strings.Repeat(args[0].(string), args[1].(int))
 	})
 
+	reg("crypto/internal/boring.Unreachable", func(fr *frame, args []value) value { return nil })
+	reg("crypto/internal/boring.UnreachableExceptTests", func(fr *frame, args []value) value { return nil })
+	reg("crypto/internal/boring/sig.StandardCrypto", func(fr *frame, args []value) value { return nil })
+	reg("crypto/internal/boring/sig.BoringCrypto", func(fr *frame, args []value) value { return nil })
 	// ---- hashing
 	reg("crypto/sha256.block", sha256Block)
 	reg("crypto/sha256.blockGeneric", sha256Block)
